@@ -3,9 +3,9 @@
    models (Location.v, LocationExt.v, Frame.v, Jt1078.v) wherever those do not panic, for every
    tail; with the totality theorems: they never look at memory beyond the slice. *)
 From JT.Base Require Import Prelude PreludeP.
-From JT.Model Require Import Location LocationExt Frame Jt1078 Total_base Total_msgs Total_codec Total_cap Total_cap2.
+From JT.Model Require Import Location LocationExt Frame Jt1078 Total_base Total_msgs Total_codec Total_cap Total_unesc Total_cap2.
 From JT.Proofs Require Import LocationStd Location_proofs LocationExt_proofs Frame_proofs Jt1078_proofs
-  Total_base_proofs Total_msgs_proofs Total_codec_proofs Total_cap_proofs.
+  Total_base_proofs Total_msgs_proofs Total_codec_proofs Total_cap_proofs Total_unesc_proofs.
 From Coq Require Import ZArith ZifyN ZifyNat ZifyBool.
 Ltac Zify.zify_post_hook ::= Z.div_mod_to_equations.
 Local Open Scope N_scope.
@@ -127,6 +127,21 @@ Proof.
   | match goal with |- refines (bind _ _) (bind _ _) => apply refines_bind; [|intros ?] end
   | apply refines_refl ].
 Qed.
+
+(* the whole frame decoder: the unescape walk behind `tail`, then the header / body slices of the
+   unescaped buffer behind `ptail` *)
+Lemma refines_frame_cap d tail ptail : refines (decode_chk d) (frame_cap d tail ptail).
+Proof.
+  unfold decode_chk, frame_cap. rewrite unescape_local. apply refines_bind. apply refines_refl. intros p. cbv zeta.
+  repeat first
+  [ apply refines_be16 | apply refines_slice
+  | match goal with |- refines (if ?c then _ else _) (if ?c then _ else _) => destruct c end
+  | match goal with |- refines (bind _ _) (bind _ _) => apply refines_bind; [|intros ?] end
+  | apply refines_refl ].
+Qed.
+
+Theorem frame_cap_local d tail ptail : frame_cap d tail ptail = decode_chk d.
+Proof. apply refines_eq. apply refines_frame_cap. apply decode_chk_total. Qed.
 
 Theorem frame_local d ptail : decode_chk_cap d ptail = decode_chk d.
 Proof. apply refines_eq. apply refines_decode_chk. apply decode_chk_total. Qed.
